@@ -27,6 +27,7 @@ func init() {
 	harness.RegisterReplay("pictiming", harness.Replayer(checkPicTiming))
 	harness.RegisterReplay("timecode", harness.Replayer(checkTimeCode))
 	harness.RegisterReplay("fixedsei", harness.Replayer(checkFixed))
+	harness.RegisterReplay("fixedpair", harness.Replayer(checkFixedPair))
 	harness.RegisterReplay("passthrough", harness.Replayer(checkPass))
 	// development aid: VERIF_C17_NOAVOID=all or a comma-separated list of switch names
 	if v := os.Getenv("VERIF_C17_NOAVOID"); v == "all" {
@@ -977,12 +978,60 @@ func genFixed(rt *rapid.T, kind int) fixedCase {
 	return c
 }
 
+// fixedPairCase: two typed messages serialised one after the other; the payload of the first one is decoded only
+// after the second one has been serialised (a caller that collects the payloads of a list before writing it).
+type fixedPairCase struct {
+	A fixedCase `json:"a"`
+	B fixedCase `json:"b"`
+}
+
+func checkFixedPair(c fixedPairCase) *harness.Fail {
+	ma, refA := c.A.message()
+	mb, refB := c.B.message()
+	pa := ma.Payload()
+	pb := mb.Payload()
+	for i, x := range []struct {
+		p, ref []byte
+		m      sei.SEIMessage
+	}{{pa, refA, ma}, {pb, refB, mb}} {
+		if !bytes.Equal(x.p, x.ref) {
+			return harness.Failf("C17|typed SEI Payload|payload obtained earlier changed when another message was serialised", "message %d (type %d): payload %x, reference %x", i, x.m.Type(), x.p, x.ref)
+		}
+		got, err := sei.DecodeSEIMessage(sei.NewSEIData(x.m.Type(), x.p), sei.HEVC)
+		if err != nil {
+			return harness.Failf("C17|DecodeSEIMessage|error", "message %d of a pair: %v", i, err)
+		}
+		if !reflect.DeepEqual(got, x.m) {
+			return harness.Failf("C17|typed SEI|decoded message differs", "message %d of a pair: got %+v want %+v", i, got, x.m)
+		}
+	}
+	// the same two as a list: write, extract, compare
+	list := []sei.SEIMessage{sei.NewSEIData(ma.Type(), pa), sei.NewSEIData(mb.Type(), pb)}
+	var w bytes.Buffer
+	if err := sei.WriteSEIMessages(&w, list); err != nil {
+		return harness.Failf("C17|WriteSEIMessages|error", "%v", err)
+	}
+	back, err := sei.ExtractSEIData(bytes.NewReader(w.Bytes()))
+	if err != nil || len(back) != 2 {
+		return harness.Failf("C17|ExtractSEIData|error", "%v (%d messages)", err, len(back))
+	}
+	if !bytes.Equal(back[0].Payload(), refA) || !bytes.Equal(back[1].Payload(), refB) || back[0].Type() != ma.Type() || back[1].Type() != mb.Type() {
+		return harness.Failf("C17|ExtractSEIData|(type,payload) differs", "pair of typed messages: got (%d,%x) (%d,%x)", back[0].Type(), back[0].Payload(), back[1].Type(), back[1].Payload())
+	}
+	return nil
+}
+
 func TestFixed(t *testing.T) {
 	harness.RunRapid(t, "fixed", func(rt *rapid.T) {
 		c := genFixed(rt, rapid.SampledFrom([]int{137, 144}).Draw(rt, "kind"))
 		raw, _ := json.Marshal(c)
 		harness.Rec.Case(true, raw, fmt.Sprintf("fixed-%d", c.Kind))
-		harness.Report(rt, "fixedsei", c, harness.Guarded(func() *harness.Fail { return checkFixed(c) }))
+		if !harness.Report(rt, "fixedsei", c, harness.Guarded(func() *harness.Fail { return checkFixed(c) })) {
+			// a second message of either kind behind it
+			pc := fixedPairCase{A: c, B: genFixed(rt, rapid.SampledFrom([]int{137, 144}).Draw(rt, "kindB"))}
+			harness.Rec.Class(fmt.Sprintf("fixed-pair-%d-%d", pc.A.Kind, pc.B.Kind))
+			harness.Report(rt, "fixedpair", pc, harness.Guarded(func() *harness.Fail { return checkFixedPair(pc) }))
+		}
 	})
 }
 
